@@ -636,7 +636,7 @@ static void space5_scalar_params (void)
     for (k = 1; k < 3; k++) {
       if (!o->src_size[k]) continue;
       if (!((o->flags & ORC_STATIC_OPCODE_SCALAR) || op_is_loadoff (o) || op_is_ldres (o))) continue;
-      for (pt = 0; pt < 4; pt++) {
+      for (pt = 0; pt < 5; pt++) {
         long idx = g_idx++;
         OrcProgram *p;
         char sig[120], text[300];
@@ -653,12 +653,16 @@ static void space5_scalar_params (void)
           if (j != k || pt == 0) orc_program_add_parameter (p, o->src_size[j], nm);
           else if (pt == 1) orc_program_add_parameter_float (p, o->src_size[j], nm);
           else if (pt == 2) orc_program_add_parameter_int64 (p, o->src_size[j], nm);
-          else orc_program_add_parameter_double (p, o->src_size[j], nm);
+          else if (pt == 3) orc_program_add_parameter_double (p, o->src_size[j], nm);
+          else orc_program_add_constant_int64 (p, 8, 0x100000000LL, nm);	/* what the parser makes of a literal beyond 32 bits */
         }
-        if (o->src_size[2]) orc_program_append_2 (p, o->name, 0, ORC_VAR_D1, ORC_VAR_S1, ORC_VAR_P1, ORC_VAR_P1 + 1);
-        else orc_program_append_2 (p, o->name, 0, ORC_VAR_D1, ORC_VAR_S1, ORC_VAR_P1, -1);
-        snprintf (sig, sizeof (sig), "scalar-param/%s/operand%d/%s", o->name, k, pt == 0 ? "param" : pt == 1 ? "floatparam" : pt == 2 ? "longparam" : "doubleparam");
-        snprintf (text, sizeof (text), "%s d1, s1, <scalar operand %d declared with orc_program_add_parameter%s, %d bytes>", o->name, k, pt == 0 ? "" : pt == 1 ? "_float" : pt == 2 ? "_int64" : "_double", o->src_size[k]);
+        {
+          int a1 = (pt == 4 && k == 1) ? ORC_VAR_C1 : ORC_VAR_P1, a2 = (pt == 4 && k == 2) ? ORC_VAR_C1 : (pt == 4 && k == 1) ? ORC_VAR_P1 : ORC_VAR_P1 + 1;
+          if (o->src_size[2]) orc_program_append_2 (p, o->name, 0, ORC_VAR_D1, ORC_VAR_S1, a1, a2);
+          else orc_program_append_2 (p, o->name, 0, ORC_VAR_D1, ORC_VAR_S1, a1, -1);
+        }
+        snprintf (sig, sizeof (sig), "scalar-param/%s/operand%d/%s", o->name, k, pt == 0 ? "param" : pt == 1 ? "floatparam" : pt == 2 ? "longparam" : pt == 3 ? "doubleparam" : "const64");
+        snprintf (text, sizeof (text), "%s d1, s1, <scalar operand %d declared with orc_program_add_parameter%s, %d bytes>", o->name, k, pt == 0 ? "" : pt == 1 ? "_float" : pt == 2 ? "_int64" : pt == 3 ? "_double" : " (pt 4: an 8-byte constant 0x100000000 instead)", o->src_size[k]);
         st_programs++;
         for (t = 0; t < NT; t++) {
           unsigned fl;
